@@ -232,7 +232,7 @@ Fixpoint fres_all (l : list fres) : option (list sval) + bool :=   (* inr true =
 
 Fixpoint from_val' (t : fty) (v : val) {struct t} : fres :=
   match v with
-  | VMark _ _ => FPanic
+  | VMark _ _ => FErr                                  (* not reached: [from_val] unmarks first *)
   | VUnk _ _ => FErr                                   (* "value must be known" (or no conversion) *)
   | VNull ty0 =>
       if null_conv_ok ty0 (implied t)
@@ -289,10 +289,11 @@ Fixpoint from_val' (t : fty) (v : val) {struct t} : fres :=
     end
   end.
 
-(* Marked values: cty's Value.IsNull panics ("value is marked, so must be unmarked
-   first").  Conservative: Go panics unless the conversion already failed elsewhere. *)
-Definition from_val (t : fty) (v : val) : fres :=
-  if contains_marked v then FPanic else from_val' t v.
+(* Marked values (reachable through an EvalContext with marked variables): convert.Convert
+   carries marks through; DecodeExpression then drops them (srcVal.UnmarkDeep(), /repo
+   4212bed — before that fix gocty.FromCtyValue panicked: "value is marked, so must be
+   unmarked first").  So a marked value decodes exactly like the unmarked one. *)
+Definition from_val (t : fty) (v : val) : fres := from_val' t (unmark_deep v).
 
 (* ---- what the writer is asked to write ------------------------------------------------- *)
 (* the hclwrite API calls of populateBody: SetAttributeValue, AppendNewline,
